@@ -49,4 +49,39 @@ PROPS = {
         ],
         trusted=['T3 as for C07', 'T8 every configured mapping satisfies internal+range <= 2^32 and external+range <= 2^32 (map_ok; Vfs::new never validates it - DESIGN.md section 7, O2)'],
     ),
+    'C01': dict(
+        vx_units=['server'], kx=[],
+        design_ref='DESIGN.md section 5, C01',
+        not_covered=[
+            'memory safety of the unsafe blocks below the transport seam (get_message_body::set_len, Reader::read_obj, FuseDevWriter raw Vecs, virtio copy_nonoverlapping) and descriptor-chain construction',
+            '"a reply IS sent" on every success path ([C01.answer]): handlers consume their context by value, so only "at most one, and exactly the specified one" is provable; helpers reply_ok/do_reply_error are proved to emit exactly one message when they return Ok',
+            'Server::do_readdir (closure capturing &mut cursor passed as &mut dyn FnMut): contract assumed',
+            'that the concrete FuseDevWriter / VirtioFsWriter refine the abstract Writer (assume-guarantee seam, DESIGN 3.4d)',
+        ],
+        trusted=['T3 prelude models (ByteValued as byte function with decode(encode(x)) == x, io::Error, slices/CStr, bitflags, ArcSwap)',
+                 'T4 abstract Reader/Writer contracts (prelude/transport.rs), written from src/transport/fusedev/mod.rs; write(2) on /dev/fuse is all-or-nothing; reply buffers are at most MAX_BUFFER_SIZE + BUFFER_HEADER_SIZE',
+                 'T8 filesystems are arbitrary but return positive errnos and, for read, the count they appended to the writer'],
+    ),
+    'C02': dict(
+        vx_units=['server'], kx=[],
+        design_ref='DESIGN.md section 5, C02',
+        not_covered=[
+            'READDIR / READDIRPLUS (Server::do_readdir not verified) and, until verified, the handlers listed as body=assumed in functions_under_contract',
+            'that result-less calls (forget, batch_forget, destroy) happen at least once, and "exactly one call" as opposed to "no other call": capabilities forbid every other call but cannot demand one',
+            'identity of the payload reader handed to FileSystem::write and of the writer handed to read (only their non-stream arguments are pinned)',
+            'Arc<FS> forwarding impl (src/api/filesystem/sync_io.rs:923-1376)',
+        ],
+        trusted=['T3 as C01', 'T8 F::Inode / F::Handle conversions are functions (vstd FromSpec / IntoSpec obeys_*)',
+                 'contract-only helpers: bytes_to_cstr, ServerUtil::extract_two_cstrs (iter().position), ServerUtil::get_message_body (unsafe set_len)'],
+    ),
+    'C03': dict(
+        vx_units=['server'], kx=[],
+        design_ref='DESIGN.md section 5, C03',
+        not_covered=[
+            'the memory image of each wire struct (sbytes is an uninterpreted function of the struct value): that is C13, decided by KX',
+            'Server::do_readdir framing (max = size, fresh cursor, len = 16 + bytes written): by inspection only',
+            'Kstatfs::from(statvfs64) and stat64::from(SetattrIn) are uninterpreted here (field preservation: KX, C13)',
+        ],
+        trusted=['T3 as C01', 'T4 as C01'],
+    ),
 }
